@@ -335,6 +335,54 @@ theorem state_roundtrip_counterexample :
   rw [json_roundtrip_int _ (by decide)]
   decide
 
+/-- **restart_meets_spec** (whole restart, state side).  For every lawful number codec, every list of objects
+    satisfying `StateOK` and the size/depth bounds of `state_roundtrip_partial`, and **every chunking** of the file
+    `DumpObjects` writes: the read loop yields the frames, and for each object the model's restart — `RestoreObject`
+    of its frame onto the freshly created object — produces observations on which the specification predicates the
+    driver evaluates on the implementation's S lines hold: `specRestartState` (serialised state identical) and
+    `specRestartPinned` (every attribute the statement names is in the record and has the identical value).  The
+    hypothesis `hinv` — every pinned attribute of the object's type is among the fields `DumpObjects` writes — is what
+    the clause `stateInventory` checks against the type reflection of the running binary on every run (I lines). -/
+theorem restart_meets_spec {N : Type} [DecidableEq N] (c : NumCodec N) (hc : c.Lawful) (known : Key → Bool)
+    (objs : List (SObj N)) (fresh : SObj N → SObj N) (chunks : List Bytes)
+    (hok : ∀ o ∈ objs, StateOK known o)
+    (hfresh : ∀ o ∈ objs, (fresh o).fields.map Prod.fst = o.fields.map Prod.fst)
+    (hlen : ∀ o ∈ objs, (frameBody c o).length < 10 ^ 9)
+    (hdepth : ∀ o ∈ objs, depth (persistent o) ≤ jsonMaxNestingDepth)
+    (hinv : ∀ o ∈ objs, ∀ a ∈ pinnedState o.typeName, dHas a o.fields = true)
+    (hchunks : chunks.flatten = stateFile c objs) :
+    (nsReadAll none chunks).items = objs.map (frameBody c) ∧
+      ∀ o ∈ objs, ∃ o', restoreMessage c known (fresh o) (frameBody c o) = some o' ∧
+        specRestartState (JValue.obj o.fields) (JValue.obj o'.fields) = none ∧
+        specRestartPinned o.typeName o.fields o'.fields = none := by
+  obtain ⟨hi, _, hr⟩ := state_roundtrip_partial c hc known objs fresh chunks hok hfresh hlen hdepth hchunks
+  refine ⟨hi, ?_⟩
+  intro o ho
+  refine ⟨_, hr o ho, ?_, ?_⟩
+  · simp [specRestartState, specRoundtrip]
+  · exact specRestartPinned_self o.typeName o.fields (hinv o ho)
+
+/-- A Downtime as the state file sees it (all three pinned attributes among its fields). -/
+def sampleDowntime : SObj Int :=
+  { typeName := "Downtime".toList, name := ['d'],
+    fields := [("legacy_id".toList, .num 3), ("remove_time".toList, .num 0), ("trigger_time".toList, .num 1700000000),
+               ("triggers".toList, .arr [.str ['x']])] }
+
+-- the inventory hypothesis is satisfiable, and the inventory clause accepts / rejects
+example : ∀ a ∈ pinnedState sampleDowntime.typeName, dHas a sampleDowntime.fields = true := by decide
+example : specInventory "Downtime".toList [("trigger_time".toList, 4), ("triggers".toList, 4), ("legacy_id".toList, 4), ("remove_time".toList, 4)] = none := by decide
+-- `[state]` dropped from trigger_time (flags 0), or the attribute gone: rejected
+example : specInventory "Downtime".toList [("trigger_time".toList, 0), ("triggers".toList, 4), ("remove_time".toList, 4)] = some .stateInventory := by decide
+example : specInventory "Downtime".toList [("triggers".toList, 4), ("remove_time".toList, 4)] = some .stateInventory := by decide
+example : specInventory "Host".toList [("acknowledgement".toList, 2)] = some .stateInventory := by decide
+-- the getter comparison rejects a trigger time that came back as 0, and a record that lacks a pinned attribute
+example : specRestartPinned (N := Int) "Downtime".toList sampleDowntime.fields
+    [("legacy_id".toList, .num 3), ("remove_time".toList, .num 0), ("trigger_time".toList, .num 0), ("triggers".toList, .arr [.str ['x']])]
+    = some .stateRoundtrip := by decide
+example : specRestartPinned (N := Int) "Downtime".toList [("remove_time".toList, .num 0), ("triggers".toList, .arr [])]
+    [("remove_time".toList, .num 0), ("triggers".toList, .arr [])] = some .stateRoundtrip := by decide
+example : specRestartPinned (N := Int) "Downtime".toList sampleDowntime.fields sampleDowntime.fields = none := by decide
+
 /-! ## (c) atomic replacement -/
 
 /-- **crash_old_or_new.**  Start from a quiescent file system (`past = []`, nothing unsynced) in which
@@ -390,6 +438,52 @@ theorem crash_leaves_only_tmp (s0 : FS) (path tmp : FName) (ino : Ino) (mode : N
     n = tmp ∨ n = path ∨ dirLookup s0.dir n ≠ none :=
   crash_leaves_only_tmp_aux s0 path tmp ino mode chunks hq pre hpre d hd n hn
 
+/-- What a `K` line of the harness reports, computed on the file-system model: the bytes a reader of `path` finds,
+    classified against the new version first (when old and new coincide the write is indistinguishable from its
+    absence) and then against what was there before. -/
+def classifyRead (old : Option Bytes) (new : Bytes) (r : Option Bytes) : Found :=
+  if r = some new then .new else if r = none then .absent else if r = old then .old else .other
+
+/-- **kill_meets_spec** (whole kill-point trace).  For **every prefix** of the system calls of `AtomicFile` (the
+    process is killed after them — the view the harness injects: current directory, current contents), what a reader
+    of `path` then finds, classified as the harness classifies it, satisfies the specification predicate `specCrash`
+    that the driver evaluates on the implementation's K lines — with `completed` true exactly for the full sequence:
+    never `other`, never `absent` when a previous version existed, and not `old`/`absent` after a complete write. -/
+theorem kill_meets_spec (s0 : FS) (path tmp : FName) (ino : Ino) (mode : Nat) (chunks : List Bytes)
+    (hq : s0.past = [] ∧ s0.dirty = [])
+    (htmp : tmp ≠ path)
+    (hino : ∀ i, dirLookup s0.dir path = some i → i ≠ ino)
+    (pre : List Sys) (hpre : pre <+: atomicWrite path tmp ino mode chunks) :
+    specCrash (readNow s0 path).isSome (decide (pre = atomicWrite path tmp ino mode chunks))
+      (classifyRead (readNow s0 path) chunks.flatten (readNow (run pre s0) path)) = none := by
+  have h := crash_old_or_new s0 path tmp ino mode chunks hq htmp hino pre hpre (run pre s0).dir
+    (dataLookup (run pre s0).data) ⟨Or.inl rfl, fun _ _ => rfl⟩
+  have hfull : pre = atomicWrite path tmp ino mode chunks → readNow (run pre s0) path = some chunks.flatten := by
+    intro e
+    rw [e]
+    exact complete_write_reads_new s0 path tmp ino mode chunks hq htmp hino
+  change readNow (run pre s0) path = _ ∨ readNow (run pre s0) path = _ at h
+  generalize readNow (run pre s0) path = r at h hfull
+  unfold classifyRead
+  by_cases hn : r = some chunks.flatten
+  · simp [hn, specCrash]
+  · have hr : r = readNow s0 path := by
+      rcases h with h | h
+      · exact h
+      · exact absurd h hn
+    have hnf : decide (pre = atomicWrite path tmp ino mode chunks) = false := by
+      simp only [decide_eq_false_iff_not]
+      intro e
+      exact hn (hfull e)
+    simp only [hn, if_false, hnf]
+    cases hro : r with
+    | none =>
+      rw [← hr, hro]
+      simp [specCrash]
+    | some b =>
+      rw [← hr, hro]
+      simp [specCrash]
+
 -- after a kill inside the second write the directory holds the old file and the temp file, nothing else
 example : (run ((atomicWrite ['s'] ['t'] 2 384 [[110], [101], [119]]).take 4) { dir := [(['s'], 1)], past := [], data := [(1, [111])], dirty := [] }).dir
     = [(['t'], 2), (['s'], 1)] := by decide
@@ -442,6 +536,10 @@ example : specCrash true false .absent = some .crashOldOrNew := by decide
 example : specCrash true false .other = some .crashOldOrNew := by decide
 example : specCrash true true .old = some .writeLost := by decide
 example : specCrash true false .old = none := by decide
+-- the classification of the model's kill points: old after 4 calls, new after all 7; a truncated file would be `other`
+example : classifyRead (readNow fs0 ['s']) [110, 101, 119] (readNow (run ((atomicWrite ['s'] ['t'] 2 384 [[110], [101], [119]]).take 4) fs0) ['s']) = .old := by decide
+example : classifyRead (readNow fs0 ['s']) [110, 101, 119] (readNow (run (atomicWrite ['s'] ['t'] 2 384 [[110], [101], [119]]) fs0) ['s']) = .new := by decide
+example : classifyRead (some [111, 108, 100]) [110, 101, 119] (some [110]) = .other := by decide
 
 end FsExamples
 
